@@ -820,7 +820,7 @@ func (e *HTTPEndpointExpr) validateHeadersAndCookies() *eval.ValidationErrors {
 	initAttr(cookies, e.MethodExpr.Payload)
 	WalkMappedAttr(headers, func(name, _ string, a *AttributeExpr) error { // nolint: errcheck
 		switch {
-		case IsObject(a.Type), IsUnion(a.Type):
+		case IsObject(a.Type), IsUnion(a.Type), IsMap(a.Type):
 			verr.Add(e, "header %q must be primitive or array", name)
 		case IsArray(a.Type):
 			arr := AsArray(a.Type)
@@ -835,7 +835,7 @@ func (e *HTTPEndpointExpr) validateHeadersAndCookies() *eval.ValidationErrors {
 	})
 	WalkMappedAttr(cookies, func(name, _ string, a *AttributeExpr) error { // nolint: errcheck
 		switch {
-		case IsObject(a.Type), IsUnion(a.Type), IsArray(a.Type):
+		case IsObject(a.Type), IsUnion(a.Type), IsArray(a.Type), IsMap(a.Type):
 			verr.Add(e, "cookie %q must be primitive", name)
 		default:
 			ctx := fmt.Sprintf("cookie %q", name)
